@@ -629,6 +629,58 @@ def _judge_again(w, cmds, again):
     return ("valid", "")
 
 
+def _tower_text(depth):
+    """An assertion over a maximally shared tower t' = (and (or t p) (or t q)), written with lets so that the text is linear"""
+    lines = ["(set-logic QF_UF)", "(declare-fun p () Bool)", "(declare-fun q () Bool)", "(declare-fun a () Bool)"]
+    body = "t%d" % depth
+    for i in range(depth, 0, -1):
+        body = "(let ((t%d (and (or t%d p) (or t%d q)))) %s)" % (i, i - 1, i - 1, body)
+    body = "(let ((t0 (or a (not p)))) %s)" % body
+    lines += ["(assert %s)" % body, "(check-sat)"]
+    return "\n".join(lines) + "\n"
+
+
+def _script_cost_job(_):
+    """A script that was read from text and is written again with daggify=True (what `python -m pysmt.smtlib.parser in out` does),
+    and SmtLibScript.to_file-style re-serialisation of a script built in memory: the cost and the length of the text follow the number
+    of nodes of the shared tower, not the number of its paths."""
+    depths = (4, 8, 12)
+
+    def call(w, it, f):
+        out = {}
+        for how in ("parsed script", "script built in memory"):
+            costs, sizes = [], []
+            for d in depths:
+                if how == "parsed script":
+                    ps = w.new_walker(PARSER, w.env)
+                    script = it.call(it.getattr(ps, "get_script"), [it.call(ExtRef("io.StringIO"), [_tower_text(d)])])
+                else:
+                    t = w.app("Or", w.symbol("a", BOOL), w.app("Not", w.symbol("p", BOOL)))
+                    for _i in range(d):
+                        t = w.app("And", w.app("Or", t, w.symbol("p", BOOL)), w.app("Or", t, w.symbol("q", BOOL)))
+                    mk = it.module_global(w.repo.modules["pysmt.smtlib.script"], "smtlibscript_from_formula")
+                    script = it.call(mk, [t])
+                # warm-up on another printer object is not possible (one printer per call): the one-time work is small next to d = 4
+                sio = it.call(ExtRef("io.StringIO"), [])
+                c0 = it.cost()
+                it.call(it.getattr(script, "serialize"), [sio], {"daggify": True})
+                costs.append(it.cost() - c0)
+                sizes.append(len(it.call(it.getattr(sio, "getvalue"), [])))
+            out[how] = (costs, sizes)
+        return out
+
+    def post(w, f, val, facts):
+        return proc.ProcResult(None, "valid", val)
+    res = proc.run_proc(Shape(("lit", True, BOOL)), call, post=post, services="full", interp_kwargs=BIG, max_paths=4, world_cls=TextWorld)
+    if len(res) != 1 or res[0].kind != "valid":
+        return ("unsupported", "%s %s" % (res[0].kind, str(res[0].detail)[:200]))
+    return ("ok", res[0].detail)
+
+
+def script_cost(repo):
+    return _script_cost_job(None)
+
+
 def _import_job(job):
     name, text, expect = job[:3]
     ref_text = job[3] if len(job) > 3 and job[3] else text      # the same script in standard spelling (pySMT extensions)
